@@ -85,6 +85,12 @@ func check(c Case) error {
 	if c.Prior != "" {
 		_, _ = translate(c.Prior, table)
 	}
+	// the same input under two other genetic codes first, results discarded (a result depends on both arguments)
+	for _, other := range []int{1 + (c.Table+3)%6, 11 + (c.Table+1)%4} {
+		if other != c.Table {
+			_, _ = translate(in, codon.GetCodonTable(other))
+		}
+	}
 	want := g.TranslateRef(upper)
 	got, err := translate(in, table)
 	if err != nil {
